@@ -307,5 +307,7 @@ def sorted_tests(suite_or_case, unpack_outer=False):
         raise ValueError(f"Duplicate test ids detected: {pformat(duplicates)}")
 
     tests = _flatten_tests(suite_or_case, unpack_outer=unpack_outer)
-    tests.sort()
+    # Test ids are unique here, so sort on the id alone. A custom suite that
+    # contains no tests has no id (None); such suites simply sort first.
+    tests.sort(key=lambda id_and_test: id_and_test[0] or "")
     return unittest.TestSuite([test for (sort_key, test) in tests])
